@@ -1,4 +1,5 @@
 import FitModel.CsvSpec
+import FitModel.CsvArith
 import Driver.ValCodec
 -- @family csv Drv.Csv.hCsv
 -- @family csvarith Drv.Csv.hCsvArith
@@ -75,6 +76,9 @@ def showLine (withValues : Bool) : Line → String
   | .data n cells => "L" ++ pctEnc n ++ "(" ++ ";".intercalate (cells.map (showCell withValues)) ++ ")"
   | .definition _ => ""
 
+def hex64? (s : String) : Option Nat :=
+  if s.length == 16 && isLowerHex s then s.toList.foldlM (fun acc c => (hexVal c).map (acc * 16 + ·)) 0 else none
+
 def stripExpanded (m : Message) : Message := { m with fields := m.fields.filter (!·.isExpanded) }
 
 def field? (impl key : String) : Option String :=
@@ -126,25 +130,48 @@ def hCsv : Handler := fun r =>
         let defcols := if opts.trim then "le" else s!"{hdr}-{hdr}"
         let data := String.join (lines.map (showLine (opts.raw && !has 'e')))
         let pre := s!"pre=ok hdr={hdr} cols={mn}-{mx} defcols={defcols} data={data}"
-        match fromCsv Arith.id lines with
+        match fromCsv Arith.so lines with
         | .err => pre ++ " back=err"
         | .unmodelled => pre ++ " back=unmodelled"
         | .ok b =>
           let rt := if b.seqs == files.map (·.map stripExpanded) then "same" else "diff"
           pre ++ s!" back=ok seq={b.seq} w=" ++ " / ".intercalate (b.seqs.map fun f => " ".intercalate (f.map printMsg)) ++ s!" rt={rt}"
       | .kf =>
-        "-"
+        "-"   -- no open finding (KF-C19-1…6 fixed in /repo)
       | .prop => propCsv opts files r.impl
       | .spec => "n/a"
     | _, _ => if r.mode == .model then "bad-op" else if r.mode == .kf then "-" else "n/a"
   | [] => if r.mode == .model then "bad-op" else if r.mode == .kf then "-" else "n/a"
 
-/-- `csvarith <bt> <scale> <offset> <raw>…`: under the hypothesis the theorems state (`Arith.id`) every value comes back -/
+/-- tag of the Go type `parseValue` returns for a base type (as the harness) -/
+def arithTag (bt : Nat) : Option String :=
+  [(btEnum, "u8"), (btByte, "u8"), (btUint8, "u8"), (btUint8z, "u8"), (btSint8, "i8"), (btSint16, "i16"), (btUint16, "u16"),
+   (btUint16z, "u16"), (btSint32, "i32"), (btUint32, "u32"), (btUint32z, "u32"), (btSint64, "i64"), (btUint64, "u64"),
+   (btUint64z, "u64")].lookup bt
+
+/-- `csvarith <bt> <scale> <offset> <raw>…`: the composite writer∘reader on every raw value as the MODEL of the
+arithmetic computes it (`Arith.so`: FitModel/ScaleOffset.lean over FitModel/F64.lean — the definitions the theorems
+`C12_csv` and `C19_scaled_roundtrip_profile` are about); the implementation's answer comes from the two verif hooks
+of package fitcsv -/
 def hCsvArith : Handler := fun r =>
   match r.args with
-  | _ :: _ :: _ :: raws =>
+  | bt :: sc :: off :: raws =>
     match r.mode with
-    | .model => " ".intercalate raws
+    | .model =>
+      match (unhex bt).bind List.head?, hex64? sc, hex64? off with
+      | some bt, some sc, some off =>
+        match arithTag bt with
+        | some tag =>
+          let outs := raws.map fun a =>
+            match parseValueTP tag a with
+            | some v =>
+              match Arith.so.scaled v bt sc off with
+              | some back => (match splitTag (printValue back) with | some (_, payload) => payload | none => "?")
+              | none => "err"
+            | none => "bad"
+          if outs.contains "bad" then "bad-op" else " ".intercalate outs
+        | none => "bad-op"
+      | _, _, _ => "bad-op"
     | .kf => "-"
     | _ => "n/a"
   | _ => if r.mode == .model then "bad-op" else if r.mode == .kf then "-" else "n/a"
